@@ -20,6 +20,7 @@ structure Prog where
   limits : List Nat
   fibers : List (List Op)   -- fiber 0 is the main fiber: it first spawns 1..n-1 in order, then runs its own ops
   rng : List Nat            -- outputs of janet_rng_u32(&janet_vm.ev_rng), in order
+  sups : List (Option Nat) := []   -- per fiber: the supervisor channel given to ev/go
   clockStart : Nat := 0     -- virtual clock of the harness: value before the first read, and step per read
   clockStep : Nat := 1
 
@@ -94,6 +95,8 @@ structure Exec where
   log : String := ""
   /-- actions performed, newest first (lets tests replay the run through `Ev.run`) -/
   acts : List Action := []
+  /-- janet_panic outside any fiber (supervisor event into a closed channel, source without the guard): the thread ended -/
+  aborted : Bool := false
 
 def Exec.nch (e : Exec) : Nat := e.prog.limits.length
 def Exec.nfib (e : Exec) : Nat := e.prog.fibers.length
@@ -112,11 +115,24 @@ def Exec.closeScopes (e : Exec) (f i : Nat) (all : Bool) : Exec :=
   let e := done.foldl (fun e s => (e.doStep (.scopeEnd s.1)).1) e
   { e with scopes := setNat e.scopes f open_ }
 
+/-- the value the harness prints for the supervisor event `[:ok fiber nil]` / `[:error fiber nil]` of fiber `f` -/
+def supEventId (f : Nat) (err : Bool) : Nat := 90000 + 10 * f + (if err then 1 else 0)
+
+/-- run phase of janet_loop1 after janet_continue_signal returned OK or ERROR for a fiber that has a supervisor:
+    `janet_channel_push(chan, make_supervisor_event(..), 2)`.  Closed channel: skipped by a source with the guard,
+    otherwise the push panics outside any fiber and the thread ends (`aborted`). -/
+def Exec.supervise (e : Exec) (f : Nat) (err : Bool) : Exec :=
+  match (e.prog.sups.getD f none) with
+  | none => e
+  | some c =>
+    if (e.w.chans c).closed && !e.cfg.supervisorSkipsClosed then { e with aborted := true }
+    else (e.doStep (.supEvent c (supEventId f err))).1
+
 /-- the fiber's code raised `v`: every open body coroutine is finished with it, then the task itself -/
 def Exec.die (e : Exec) (f : Nat) (v : Val) : Exec :=
   let e := e.closeScopes f 0 true
   let e := (e.doStep (.finish true)).1
-  { e with errs := setNat e.errs f v }
+  ({ e with errs := setNat e.errs f v }).supervise f true
 
 /-- run fiber `f` (the current root fiber) until it suspends or finishes -/
 def Exec.runFiber (e : Exec) (f : Nat) : Nat → Exec
@@ -126,7 +142,7 @@ def Exec.runFiber (e : Exec) (f : Nat) : Nat → Exec
     let i := e.pc f
     let e := e.closeScopes f i false
     match ops[i]? with
-    | none => (e.doStep (.finish false)).1
+    | none => ((e.doStep (.finish false)).1).supervise f false
     | some op =>
       let e := e.say s!";B {f} {i}{showState e.w e.nch e.nfib}"
       let e := { e with pc := setNat e.pc f (i + 1) }
@@ -152,14 +168,14 @@ def Exec.runFiber (e : Exec) (f : Nat) : Nat → Exec
       match o with
       | .ret v => (e.say s!";E {f} {i} {showVal v}").runFiber f fuel
       | .await => { e with waiting := setNat e.waiting f (some i) }
-      | .err v => { (e.closeScopes f 0 true) with errs := setNat e.errs f v }
+      | .err v => ({ (e.closeScopes f 0 true) with errs := setNat e.errs f v }).supervise f true
       | _ => e
 
 /-- run phase of janet_loop1: `while (spawn.head != spawn.tail)` -/
 def Exec.runPhase (e : Exec) : Nat → Exec
   | 0 => e
   | fuel + 1 =>
-    if e.w.runq.isEmpty then e
+    if e.w.runq.isEmpty || e.aborted then e
     else
       let (e, o) := e.doStep .runTask
       match o with
@@ -174,6 +190,8 @@ def Exec.runPhase (e : Exec) : Nat → Exec
           | none => e
         (e.runFiber f 64).runPhase fuel
       | .resumedErr f v => ({ (e.die f v) with waiting := setNat e.waiting f none }).runPhase fuel
+      -- a task for a fiber that is already finished: janet_continue_signal returns an error signal for it
+      | .resumedDead f => (e.supervise f true).runPhase fuel
       | _ => e.runPhase fuel
 
 /-- `while (!janet_loop_done()) janet_loop1();` with the harness's idle detection in the poll phase -/
@@ -185,6 +203,7 @@ def Exec.loop (e : Exec) (first : Bool) : Nat → Exec × String
       let e := e.say (";L" ++ (if first then showState e.w 0 1 else showState e.w e.nch e.nfib))
       let e := (e.doStep .timers).1
       let e := e.runPhase 4096
+      if e.aborted then (e, "top-level-signal") else
       let e := (e.doStep .poll).1
       -- poll phase: nothing but suspended fibers left => epoll_wait would never return
       if e.w.runq.isEmpty ∧ e.w.timers.isEmpty ∧ e.w.listeners > 0 then (e, "idle-forever")
